@@ -26,6 +26,70 @@ pub fn builtin_case(name: &str, arg: &Value, bucket: &str) -> Case {
     Case { impl_lines: lines, drv_lines: drv, human: format!("{}(x) with x = {:?}", name, arg), bucket: format!("{}:{}", bucket, name) }
 }
 
+/// the argument families aimed at each builtin's own edge (shift amounts, byte / char indices, orderings, membership)
+pub fn targeted_cases() -> Vec<Case> {
+    let mut cases = Vec::new();
+        // shifts by every amount -70..70 on edge integers; substring over every index pair of multi-byte strings
+        for a in [1i64, -1, i64::MIN, i64::MAX, 0x0123_4567_89ab_cdef, -2] {
+            for k in -70i64..=70 {
+                cases.push(builtin_case("shl", &Value::Tuple(vec![Value::Int(a), Value::Int(k)]), "shift"));
+                cases.push(builtin_case("shr", &Value::Tuple(vec![Value::Int(a), Value::Int(k)]), "shift"));
+            }
+        }
+        for s in ["", "abc", "äb", "a😀ß", "ßß"] {
+            cases.push(builtin_case("len", &Value::String(s.into()), "substring"));
+            for i in -1i64..=8 {
+                cases.push(builtin_case("str::substring", &Value::Tuple(vec![Value::String(s.into()), Value::Int(i)]), "substring"));
+                for j in -1i64..=8 {
+                    cases.push(builtin_case("str::substring", &Value::Tuple(vec![Value::String(s.into()), Value::Int(i), Value::Int(j)]), "substring"));
+                }
+            }
+        }
+        for vs in [vec![1e19, 2e19], vec![-1e19, -2e19]] {
+            cases.push(builtin_case("min", &Value::Tuple(vs.iter().map(|f| Value::Float(*f)).collect()), "named"));
+            cases.push(builtin_case("max", &Value::Tuple(vs.iter().map(|f| Value::Float(*f)).collect()), "named"));
+        }
+        // min / max over all pairs of the integer and float edge pools (exact integer order above 2^53, mixed promotion)
+        let ints = int_pool();
+        let floats: Vec<f64> = float_pool().into_iter().filter(|f| !f.is_nan()).collect();
+        for name in ["min", "max"] {
+            for a in &ints {
+                for b in &ints {
+                    cases.push(builtin_case(name, &Value::Tuple(vec![Value::Int(*a), Value::Int(*b)]), "minmax-int"));
+                }
+                for f in &floats {
+                    cases.push(builtin_case(name, &Value::Tuple(vec![Value::Int(*a), Value::Float(*f)]), "minmax-mixed"));
+                    cases.push(builtin_case(name, &Value::Tuple(vec![Value::Float(*f), Value::Int(*a), Value::Int(1)]), "minmax-mixed"));
+                }
+            }
+            for f in &floats {
+                for g in &floats {
+                    cases.push(builtin_case(name, &Value::Tuple(vec![Value::Float(*f), Value::Float(*g)]), "minmax-float"));
+                }
+            }
+        }
+        // contains / contains_any: haystacks and needle lists with hits, misses and invalid needles in every order
+        let hay = vec![Value::Int(1), Value::String("a".into()), Value::Float(2.5), Value::Boolean(true)];
+        let needles = [
+            Value::Int(1), Value::Int(9), Value::String("a".into()), Value::Float(2.5), Value::Boolean(false), Value::Empty,
+            Value::Tuple(vec![Value::Int(1)]), Value::Float(f64::NAN),
+        ];
+        for a in &needles {
+            cases.push(builtin_case("contains", &Value::Tuple(vec![Value::Tuple(hay.clone()), a.clone()]), "contains"));
+            for b in &needles {
+                cases.push(builtin_case("contains_any", &Value::Tuple(vec![Value::Tuple(hay.clone()), Value::Tuple(vec![a.clone(), b.clone()])]), "contains"));
+                for c in &needles {
+                    cases.push(builtin_case(
+                        "contains_any",
+                        &Value::Tuple(vec![Value::Tuple(hay.clone()), Value::Tuple(vec![a.clone(), b.clone(), c.clone()])]),
+                        "contains",
+                    ));
+                }
+            }
+        }
+        cases
+}
+
 fn as_f64(v: &Value) -> Option<f64> {
     match v {
         Value::Int(i) => Some(*i as f64),
@@ -113,64 +177,7 @@ impl Property for C10 {
                 }
             }
         }
-        // shifts by every amount -70..70 on edge integers; substring over every index pair of multi-byte strings
-        for a in [1i64, -1, i64::MIN, i64::MAX, 0x0123_4567_89ab_cdef, -2] {
-            for k in -70i64..=70 {
-                cases.push(builtin_case("shl", &Value::Tuple(vec![Value::Int(a), Value::Int(k)]), "shift"));
-                cases.push(builtin_case("shr", &Value::Tuple(vec![Value::Int(a), Value::Int(k)]), "shift"));
-            }
-        }
-        for s in ["", "abc", "äb", "a😀ß", "ßß"] {
-            cases.push(builtin_case("len", &Value::String(s.into()), "substring"));
-            for i in -1i64..=8 {
-                cases.push(builtin_case("str::substring", &Value::Tuple(vec![Value::String(s.into()), Value::Int(i)]), "substring"));
-                for j in -1i64..=8 {
-                    cases.push(builtin_case("str::substring", &Value::Tuple(vec![Value::String(s.into()), Value::Int(i), Value::Int(j)]), "substring"));
-                }
-            }
-        }
-        for vs in [vec![1e19, 2e19], vec![-1e19, -2e19]] {
-            cases.push(builtin_case("min", &Value::Tuple(vs.iter().map(|f| Value::Float(*f)).collect()), "named"));
-            cases.push(builtin_case("max", &Value::Tuple(vs.iter().map(|f| Value::Float(*f)).collect()), "named"));
-        }
-        // min / max over all pairs of the integer and float edge pools (exact integer order above 2^53, mixed promotion)
-        let ints = int_pool();
-        let floats: Vec<f64> = float_pool().into_iter().filter(|f| !f.is_nan()).collect();
-        for name in ["min", "max"] {
-            for a in &ints {
-                for b in &ints {
-                    cases.push(builtin_case(name, &Value::Tuple(vec![Value::Int(*a), Value::Int(*b)]), "minmax-int"));
-                }
-                for f in &floats {
-                    cases.push(builtin_case(name, &Value::Tuple(vec![Value::Int(*a), Value::Float(*f)]), "minmax-mixed"));
-                    cases.push(builtin_case(name, &Value::Tuple(vec![Value::Float(*f), Value::Int(*a), Value::Int(1)]), "minmax-mixed"));
-                }
-            }
-            for f in &floats {
-                for g in &floats {
-                    cases.push(builtin_case(name, &Value::Tuple(vec![Value::Float(*f), Value::Float(*g)]), "minmax-float"));
-                }
-            }
-        }
-        // contains / contains_any: haystacks and needle lists with hits, misses and invalid needles in every order
-        let hay = vec![Value::Int(1), Value::String("a".into()), Value::Float(2.5), Value::Boolean(true)];
-        let needles = [
-            Value::Int(1), Value::Int(9), Value::String("a".into()), Value::Float(2.5), Value::Boolean(false), Value::Empty,
-            Value::Tuple(vec![Value::Int(1)]), Value::Float(f64::NAN),
-        ];
-        for a in &needles {
-            cases.push(builtin_case("contains", &Value::Tuple(vec![Value::Tuple(hay.clone()), a.clone()]), "contains"));
-            for b in &needles {
-                cases.push(builtin_case("contains_any", &Value::Tuple(vec![Value::Tuple(hay.clone()), Value::Tuple(vec![a.clone(), b.clone()])]), "contains"));
-                for c in &needles {
-                    cases.push(builtin_case(
-                        "contains_any",
-                        &Value::Tuple(vec![Value::Tuple(hay.clone()), Value::Tuple(vec![a.clone(), b.clone(), c.clone()])]),
-                        "contains",
-                    ));
-                }
-            }
-        }
+        cases.extend(targeted_cases());
         cases.push(builtin_case("math::log", &Value::Tuple(vec![Value::Int(8), Value::Int(2)]), "named"));
         cases.push(builtin_case("math::pow", &Value::Tuple(vec![Value::Int(2), Value::Int(10)]), "named"));
         cases.push(builtin_case("math::atan2", &Value::Tuple(vec![Value::Int(1), Value::Int(2)]), "named"));
